@@ -23,8 +23,15 @@ def mk(B, kind, name, frame, meta=None, visual=None):
     v = B.meta(VISUAL, name + '.visual', visual or {})
     cls = SKY_CLASS[kind] if sk else PIX_CLASS[kind]
     P = (lambda nm: sky(B, name + '.' + nm, frame)) if sk else (lambda nm: pix(B, name + '.' + nm))
-    S = (lambda nm: B.quantity(name + '.' + nm, 'arcsec')) if sk else (lambda nm: B.real(name + '.' + nm))
-    A = lambda: B.quantity(name + '.angle', 'deg')
+    def fixed_point(q, least):
+        # domain of the assumed contract of Quantity.to_string (fixed-point notation: value 0 or 1e-4 <= |value in deg| < 1e16); sizes
+        # are written halved for ellipses, hence `least`; smaller / larger values are written in scientific notation by numpy and are
+        # covered by the bounded round trip only (bounded/ds9_roundtrip.py draws sizes down to 0.1 arcsec)
+        d = q.to_value('deg')
+        B.assume(d == 0 or ((d >= least or d <= -least) and d < 1e15 and d > -1e15))
+        return q
+    S = (lambda nm: fixed_point(B.quantity(name + '.' + nm, 'arcsec'), 0.0002)) if sk else (lambda nm: B.real(name + '.' + nm))
+    A = lambda: fixed_point(B.quantity(name + '.angle', 'deg'), 0.0001)
     if kind == 'circle':
         return B.new(cls, label=name, center=P('center'), radius=S('radius'), meta=m, visual=v)
     if kind in ('ellipse', 'rectangle'):
@@ -248,11 +255,16 @@ class ds9_inexpressible_regions_are_skipped:
     # `ecliptic` would put it elsewhere on the sky)
     FRAMES_WITHOUT_NAME = {'frame_without_ds9_name': 'supergalactic', 'geocentric_ecliptic': 'geocentrictrueecliptic',
                            'heliocentric_ecliptic': 'heliocentrictrueecliptic', 'mean_geocentric_ecliptic': 'geocentricmeanecliptic'}
-    cases = {w + '@%d' % i: {'what': w, 'at': i} for w in ('compound',) + tuple(FRAMES_WITHOUT_NAME) for i in (0, 1, 2)}
+    cases = {w + '@%d' % i: {'what': w, 'at': i} for w in ('compound', 'sky_compound') + tuple(FRAMES_WITHOUT_NAME) for i in (0, 1, 2)}
 
     def setup(B, what='compound', at=0):
         good = [mk(B, 'circle', 'g0', 'image', {'text': 'a'}), mk(B, 'ellipse', 'g1', 'fk5')]
-        bad = compound_of(B, 'bad') if what == 'compound' else mk(B, 'circle', 'bad', ds9_inexpressible_regions_are_skipped.FRAMES_WITHOUT_NAME[what])
+        if what == 'compound':
+            bad = compound_of(B, 'bad')
+        elif what == 'sky_compound':
+            bad = mk(B, 'circle', 'bad1', 'fk5') | mk(B, 'circle', 'bad2', 'fk5')       # a compound of sky regions is as inexpressible as one of pixel regions
+        else:
+            bad = mk(B, 'circle', 'bad', ds9_inexpressible_regions_are_skipped.FRAMES_WITHOUT_NAME[what])
         rs = good[:at] + [bad] + good[at:]
         return dict(rs=rs, good=good)
     call = lambda rs, good: (serialize(rs, 8), serialize(good, 8))
